@@ -223,6 +223,12 @@ add("C20",
 PENDING = {}
 
 
+AGED_TEXT = (" Objects with a history are covered by the sub-property `aged`: a generated script of reads (cache "
+             "warm-up) and in-place writes through the public API is applied to a field (or to an object derived from "
+             "it), a fresh field is built from the resulting public state, and every observable this property speaks "
+             "about must agree between the two; sampled, not exhaustive.")
+
+
 def main():
     props = [json.loads(l) for l in open(os.path.join(VERIF, "properties.jsonl"))]
     checks = []
@@ -238,10 +244,13 @@ def main():
                 "evidence_file": f"evidence/{pid}.json",
                 "replay_cmd_template": f"/venv/bin/python pbt/run.py {pid} --replay {{path}}",
                 "engine": "pbt",
-                "level_claimed": {"category": c["category"], "text": c["text"],
-                                  "design_ref": f"DESIGN.md section 4, {pid}"},
-                "level_note": c["note"],
-                "technique": c["technique"],
+                "level_claimed": {"category": c["category"], "text": c["text"] + AGED_TEXT,
+                                  "design_ref": f"DESIGN.md section 4, {pid} and sub-property `aged`"},
+                "level_note": c["note"] + " The aged sub-property assumes that results are a function of the public "
+                                          "primary state (corners, n, names, units, bc, subregions, array, validity, "
+                                          "labels, mapping, unit).",
+                "technique": c["technique"] + "; plus a differential 'aged == fresh' sub-property over generated scripts "
+                                              "of reads and in-place writes (model-based histories, shrinkable JSON cases)",
             })
         else:
             na.append({"property_id": pid,
